@@ -532,8 +532,14 @@ class Analysis:
         n = attr_chain(f)
         if n is None:
             return None
-        if n == 'cls' and self.cls_key is not None:
+        if n in ('cls', 'self.__class__') and self.cls_key is not None:
             return self.dispatch
+        if isinstance(f, ast.Name) and self.is_method:
+            # a local bound only to the dynamic class: k = type(self) / self.__class__
+            vals = [x.value for x in walk_no_nested(self.fn, include_root=False)
+                    if isinstance(x, ast.Assign) and any(isinstance(t, ast.Name) and t.id == f.id for t in x.targets)]
+            if vals and all(norm(v) in ('type(self)', 'self.__class__') for v in vals) and f.id not in self.params:
+                return self.dispatch
         return self.fam.resolve_member(self.mod, n)
 
     def _may_alias(self) -> T.Dict[str, T.Set[str]]:
@@ -1016,7 +1022,7 @@ class Analysis:
         for a in args:
             self.ev(a, st, cond)
         # family method on a tracked receiver
-        if recv_key is not None and recv_key in self.tracked and meth is not None:
+        if recv_key is not None and recv_key in self.tracked and meth is not None and not (meth == '__class__' and self._ctor_of(e) is not None):
             self.arg_effects(e, args, st, cond, f'`{recv_key}.{meth}`')
             self.call_ret[id(e)] = self.method_effect(recv_key, meth, st, cond, e)
             return
